@@ -183,7 +183,7 @@ def c10_run(c):
     open(os.path.join(work, ".cargo", "config.toml"), "w").write(cfg)
     shutil.copyfile(os.path.join(c["repo"], "Cargo.lock"), os.path.join(work, "Cargo.lock"))
     try:
-        r = subprocess.run(["cargo", "+nightly", "miri", "run", "--offline"], cwd=work, stdout=subprocess.PIPE, stderr=subprocess.STDOUT,
+        r = subprocess.run(["cargo", "+nightly", "miri", "run", "--offline"] + (["--features", "full"] if c["thorough"] else []), cwd=work, stdout=subprocess.PIPE, stderr=subprocess.STDOUT,
                            text=True, timeout=3000, env=dict(os.environ, CARGO_NET_OFFLINE="true", MIRIFLAGS=""))
     except subprocess.TimeoutExpired:
         tie["oracle"].append({"property": "C10", "what": "Miri: the interpreted decode cases did not finish within the time limit"})
@@ -348,7 +348,7 @@ PROPS = {
         "assumptions": ["recursive derived types are unfolded deeper than the input is long"],
     },
     "C18": {
-        "streams": ["skip", "len"],
+        "streams": ["skip", "len", "big"],
         "rule": "skip vs dec (outcome and remaining length) for every catalogue type on valid+suffix, mutated, truncated and exact encodings; encoded_fixed_size() of every catalogue type vs the model; DecodeLength::len on generated values (incl. 20k-element ones) of the six collections and of tuples led by them, and on mutated strings. Oracles on the implementation: skip == decode (ok-ness and position), len == true element count, fixed size == every value's size. non-trivial = distinct request whose model answer is not `err`",
         "level_text": "Proved in Lean: DecodeLength::len on encode(coll) ++ rest is the element count, for all six collection kinds and tuples led by them; for every type and every byte string skip succeeds iff decode succeeds and then leaves the input at the same position (including the [T;N] override that skips fixed-size elements one at a time while decode reads them in bulk - shown equivalent to one bulk read); a reported encoded_fixed_size is the length of every value's encoding. Tied to the crate by the skip/len streams and oracles.",
         "level_note": "Trusted: as C01. After a *failed* skip/decode the position of the input is not compared (the bulk decode leaves a slice untouched where the element-wise skip has consumed some elements; the property speaks of success position and of failing exactly when decode fails).",
@@ -364,7 +364,7 @@ PROPS = {
         "assumptions": ["the wrapped input does not override scale_internal_decode_bytes (true of every input CountedInput can wrap through its public constructor: the override is not forwarded)"],
     },
     "C11": {
-        "streams": ["limit", "decall"],
+        "streams": ["limit", "decall", "big"],
         "rule": "limit requests: for every catalogue type (nesting Vec, Box, Rc, Arc, BTreeMap, BTreeSet, LinkedList, VecDeque, BinaryHeap, Option, tuples, recursive derived Tree/Chain) on valid, mutated and suffixed encodings, every limit L = 0..need+2 (need = least succeeding limit, scan capped at 12 when none succeeds): value, remaining compared with the model; oracles: transparent (ok => equals unlimited), monotone in L, some limit succeeds when unlimited does; decode_all_with_depth_limit vs decode. non-trivial = distinct request whose model answer is not `err`; for every untampered encoding the least sufficient limit observed on the real crate is compared with the model's nesting(ty, v)",
         "level_text": "Proved in Lean for every type, byte string and limit (lax simulation theorem over all decoder programs between the unlimited input, a depth-recording specification input and the transliterated DepthTrackingInput): limited decoding returns exactly the unlimited result (value and position) or an error; when unlimited decoding succeeds, the limited one succeeds with the same result IFF L >= need, where need is the maximal number of simultaneously open descend_ref calls of the unlimited run (hence monotone in L, success for all L >= need, failure for all L < need); decode_all_with_depth_limit succeeds iff decode_with_depth_limit succeeds with nothing left. Tied to the crate by the limit stream over all L around the threshold. The abstract needed depth is made concrete by the hook-trace theorem (Proofs/HookTrace.lean: decoding the encoding of ANY well-formed value makes exactly the hook calls hookTrace ty v, through the chunked, bulk and from_iter paths): needDepth = nesting ty v, the container nesting of the value (Box/Rc/Arc, lists, tree maps/sets and element-wise vectors cost a level; vectors of primitives, strings, byte buffers, bit sequences none; components take the maximum) - hence limited decoding of an encoding succeeds IFF nesting <= L (succeeds_iff_nesting_le, deeper_than_limit_rejected), and the depth counter returns to where it started (depth_balanced: siblings do not accumulate).",
         "level_note": "Trusted: as C01. Partial: (1) 'stack-safe' - the theorem bounds the number of open descend_ref levels, i.e. decoder frames of heap-allocating containers, not machine stack bytes; survival of 10^6-deep input on a small stack is a harness observation (thorough tier), not a theorem. (2) need <= value nesting depth is checked by the tie (every L from 0), the theorem fixes need as a property of the unlimited run.",
@@ -405,7 +405,7 @@ PROPS = {
         "assumptions": ["EncodeLike item forms encode like the item (C16)"],
     },
     "C07": {
-        "streams": ["sinks", "bulk"],
+        "streams": ["sinks", "bulk", "big"],
         "rule": "for every catalogue type, generated values through six sinks - encode(), encode_to(Vec), encode_to(an io::Write accepting 1..7 bytes per call, i.e. through write_all), encode_to(&mut dyn Output), using_encoded, encoded_size - oracle: all equal; encode / using_encoded / encoded_size compared with the model's three entry points; all twelve primitive element types x lengths {0,1,2,3,17,c-1,c,c+1,2c+1} (c = 16KiB/size; thorough: 64 more incl. up to 3c+1) x {slice, Vec, wrapped VecDeque, arrays of 0/1/7/32/33} against the element-wise twin newtype: encodings equal; the same (exact, truncated, extended) bytes decoded by the bulk and by the element-wise decoder: same outcome. non-trivial = distinct request whose model answer is not `err`",
         "level_text": "Proved in Lean: every impl overrides at least one of the three mutually-defaulting Encode methods, so all four entry points terminate for every type (and an impl overriding none - what the derive emitted for an all-skipped enum before the fix - provably never terminates); for every well-formed value encode, encode_to, using_encoded and encoded_size describe the same byte string (the last as its length), and the fixed-capacity buffer of CompactRef::using_encoded never overflows; any sink whose write appends observes the same bytes however the encoder splits them into write calls; bulk encoding of primitive slices (and of both ring-buffer slices of a deque, for every split) equals element-wise encoding; bulk decoding of a primitive vector accepts exactly the byte strings its element-wise twin accepts, with the same elements and consumption. Tied to the crate by six sinks per value and bulk-vs-twin comparisons on all 12 primitive types.",
         "level_note": "Trusted: as C01. The reinterpretation of memory in the bulk paths is modelled as little-endian bytes (the harness records the target's endianness); how each impl splits its output into write/push_byte calls is not modelled - the sink theorem quantifies over all splittings instead. Finding F2 (all four defaults of an all-skipped enum recurse forever) was a genuine defect, repaired by a fix: commit.",
